@@ -89,6 +89,20 @@ Proof.
 Qed.
 Print Assumptions C16_polyeval_comptime_values_distinguish.
 
+(* Comptime values are compared with Lua's `~=`, so the model's value ids are ==-classes.  Over RAW values
+   ([cls] maps a raw value to its class) the full statement "calls that differ in a comptime value get
+   distinct specialisations" holds iff no two raw values share a class - and 0.0 == -0.0 do: the open
+   finding replayed by the polyc stream (poly-comptime-signed-zero). *)
+Definition C16_polyeval_distinct_values_full (cls : Z -> Z) : Prop := distinct_raw_values_distinct_specialisations cls.
+Theorem C16_polyeval_lua_equal_values_share_refuted :
+  forall cls, (exists r r', r <> r' /\ cls r = cls r') -> ~ C16_polyeval_distinct_values_full cls.
+Proof. exact lua_equal_values_share_refuted_lemma. Qed.
+Print Assumptions C16_polyeval_lua_equal_values_share_refuted.
+Theorem C16_polyeval_distinct_values_partial :
+  forall cls, (forall r r', cls r = cls r' -> r = r') -> C16_polyeval_distinct_values_full cls.
+Proof. exact distinct_raw_values_lemma. Qed.
+Print Assumptions C16_polyeval_distinct_values_partial.
+
 (* hygiene: inside a hygienized call a free name bound at definition time resolves to that
    binding whatever the use site holds; the checkpoint stack is restored *)
 Theorem C16_hygiene_resolution :
